@@ -211,16 +211,16 @@ def cells():
     out = []
     big = dict(domain='a', timeout_s=2400, q_timeout_ms=10000, ob_timeout_ms=60000, max_paths=3000)
     # n = 1: A and b symbolic (4+1, 2+2 components in quick; all 8 components in thorough)
-    for cls, bk, tier in [('full', 'real', 'quick'), ('complex', 'complex', 'quick'), ('full', 'full', 'thorough'), ('complex', 'full', 'thorough')]:
+    for cls, bk, tier in [('full', 'real', 'thorough'), ('complex', 'complex', 'quick'), ('full', 'full', 'thorough'), ('complex', 'full', 'thorough')]:
         for sparse, prec, mi in [(False, None, None), (True, None, None), (False, 'left_lu', None), (False, None, 1), (True, 'left_lu', 1)]:
             if tier == 'thorough' and (sparse or mi):
                 continue
-            if cls == 'full' and tier == 'quick' and (sparse or mi):
+            if cls == 'full' and bk == 'real' and (sparse or mi):
                 continue
             ctier = 'thorough' if (prec == 'left_lu' and not sparse) else tier
             out.append(Cell('gmres[n=1,A %s,b %s,%s,prec=%s,max_iter=%s]' % (cls, bk, 'sparse' if sparse else 'dense', prec, mi), 'c04:gmres',
                             dict(n=1, cls=cls, bkind=bk, sparse=sparse, prec=prec, max_iter=mi), tier=ctier,
-                            twin=(cls == 'complex' and not sparse and prec is None and mi is None), twin_timeout_s=600,
+                            twin=False,
                             bounds='A 1x1 (%s) and b (%s) symbolic, |a|^2 >= 1e-4; all breakdown / degenerate-rotation paths' % (cls, bk), **big))
     for tol, name in [('1/100', '1e-2'), ('1/1000000000000', '1e-12')]:
         out.append(Cell('gmres[n=1,A complex,b complex,tol=%s]' % name, 'c04:gmres', dict(n=1, cls='complex', bkind='complex', tol=tol), twin=False,
@@ -234,7 +234,7 @@ def cells():
                         bounds='A 2x2 of class %s, b %s symbolic; default iteration cap; all breakdown paths' % (cls, bk), **big))
     for cls, mi, tier in [('identity', 1, 'quick'), ('scaled_identity', 1, 'quick'), ('diag_real', 1, 'thorough'), ('real', 1, 'thorough'), ('identity', 0, 'quick')]:
         out.append(Cell('gmres[n=2,%s,max_iter=%d]' % (cls, mi), 'c04:gmres', dict(n=2, cls=cls, bkind='real', max_iter=mi), tier=tier,
-                        twin=False, bounds='iteration cap %d' % mi, **big))
+                        twin=(cls == 'identity' and mi == 1), twin_timeout_s=300, bounds='iteration cap %d' % mi, **big))
     for cls, tier in [('identity', 'quick'), ('diag_real', 'thorough')]:
         out.append(Cell('gmres[n=2,%s,sparse]' % cls, 'c04:gmres', dict(n=2, cls=cls, bkind='real', sparse=True), tier=tier, twin=False,
                         bounds='sparse storage of A', **big))
